@@ -449,6 +449,17 @@ func c09Faults() []c09Fault {
 		{Class: "valid", Variant: "unexported-and-alias-declarations-present", Apply: func(b *c09Base, _ string, _ *simrt.Plan) {
 			b.tpkg().Files[0].Extra += "\ntype generic[T any] interface{ Get() T }\n\ntype intGetter = generic[int]\n\ntype lower interface{ m() }\n\ntype NotIface func(int) string\n\nvar _ intGetter\nvar _ lower\n"
 		}},
+		{Class: "valid", Variant: "alias-and-instantiation-declarations-in-all-package", Apply: func(b *c09Base, _ string, _ *simrt.Plan) {
+			// aliases and instantiations are not method-set interfaces of their own: with all: true
+			// they are skipped, the run succeeds and the real interfaces are mocked
+			for i, q := range b.proj.Pkgs {
+				if i != b.target {
+					b.proj.Pkgs[i].Files[0].Extra += "\ntype Boxed[T any] interface{ Unbox() T }\n\ntype IntBox = Boxed[int]\n\ntype StrBox Boxed[string]\n\ntype Plain = interface{ P() }\n\ntype AliasOfNamed = Thing\n"
+					b.proj.Config.Sub("packages").Sub(c09Mod + "/" + q.Dir).Sub("config").Set("all", true)
+					return
+				}
+			}
+		}},
 		{Class: "valid", Variant: "generic-interfaces-with-assorted-constraints", Apply: func(b *c09Base, _ string, _ *simrt.Plan) {
 			q := b.tpkg()
 			q.Files = append(q.Files, world.SrcFile{Name: "generic.go", Extra: `import "time"
